@@ -23,6 +23,7 @@
  * FZ_SKIP: certs2048, chexts (more extension output than maxlen), oid33, aia, iap, cv13 (TLS 1.3 CertificateVerify shorter than its fields)
  */
 #define FZ_TARGET "fz_tlsrec"
+#define FZ_TLSVEC_PREFIX 3
 #include "fz_common.h"
 #include "fz_tls.h"
 #include <gmssl/sm2.h>
@@ -226,6 +227,7 @@ static const body_print_fn body_printers[] = {
 /* index for the seeds fz_gen writes: handshake type -> printer */
 static int body_index(int p1)
 {
+	if (p1 >= 240) return (int)N_BODY + (p1 - 240) % 8;   /* direct selection of the printers behind the handshake bodies */
 	switch (p1) {
 	case TLS_handshake_client_hello: return 1;
 	case TLS_handshake_server_hello: return 2;
